@@ -110,7 +110,18 @@ def make_arrays():
     x5.enable_caching()
     x6 = sparse.GCXS.from_numpy(c + 2)
     assert x5.nnz == x5.size and x6.nnz == x6.size
-    return [x0, x1, x2, x3, x4, x5, x6]
+    # permutation-like operand: ONE stored element per row, mixed signs, extent 5 on the last axis (every group of a
+    # reduction over the trailing axis is a singleton and needs the fill correction).  Not cache-enabled, so its
+    # reductions touch no cache protocol.  7: 2-d COO, 8: 3-d diagonal-like COO
+    pm = np.zeros((4, 5), dtype=np.int64)
+    for i, (j, v) in enumerate([(2, -3), (0, 4), (4, -1), (1, 2)]):
+        pm[i, j] = v
+    x7 = sparse.COO.from_numpy(pm)
+    dg = np.zeros((3, 3, 4), dtype=np.int64)
+    for i, v in enumerate([-2, 5, -7]):
+        dg[i, i, i + 1] = v
+    x8 = sparse.COO.from_numpy(dg)
+    return [x0, x1, x2, x3, x4, x5, x6, x7, x8]
 
 
 def alias_map(arrs):
@@ -207,7 +218,13 @@ def real_call(arrs, memo, spec):
         # the protocols' scheduling points).  NB: reductions (x.sum) are NOT among them — COO.reduce goes through
         # self.transpose / .reshape and hence through the cache; they are exercised by the mixed workloads.
         return {"abs": lambda: abs(x), "neg": lambda: -x, "idx": lambda: x[..., 1], "nnz": lambda: x.nnz,
-                "dense": lambda: x.todense()}[spec[2]]()
+                "dense": lambda: x.todense(),
+                # reductions over trailing axes (pure only on arrays WITHOUT a cache: arrays 7, 8)
+                "max_last": lambda: x.max(axis=-1), "min_last": lambda: x.min(axis=-1),
+                "any_last": lambda: x.any(axis=-1), "all_last": lambda: x.all(axis=-1),
+                "prod_last": lambda: x.prod(axis=-1), "sum_last": lambda: x.sum(axis=-1),
+                "max_trailing2": lambda: x.max(axis=(-2, -1)), "min_trailing2": lambda: x.min(axis=(-2, -1)),
+                }[spec[2]]()
     if k == "D":
         # densify a shared operand, then the CALLER post-processes its own result in place (legitimate: the array
         # is the caller's).  The value of the call is the array after the write.
@@ -393,7 +410,18 @@ def mixed_operands(dt_a="int64", dt_b="int64"):
     full = sparse.COO.from_numpy((np.arange(20).reshape(4, 5) % 4 + 1).astype(dt_a))
     full.enable_caching()
     gfull = sparse.GCXS.from_numpy((np.arange(20).reshape(4, 5) % 3 + 2).astype(dt_a))
-    return {"x": x, "y": y, "z": z, "d": d, "xa": sparse.COO(x), "za": sparse.COO(z), "full": full, "gfull": gfull}
+    pm = np.zeros((4, 5), dtype=dt_a)
+    for i, (j, v) in enumerate([(2, -3), (0, 4), (4, -1), (1, 2)]):
+        pm[i, j] = v if np.dtype(dt_a).kind in "if" else abs(v)
+    perm = sparse.COO.from_numpy(pm)
+    permc = sparse.COO.from_numpy(pm.copy())
+    permc.enable_caching()
+    dg = np.zeros((3, 3, 4), dtype=dt_a)
+    for i, v in enumerate([-2, 5, -7]):
+        dg[i, i, i + 1] = v if np.dtype(dt_a).kind in "if" else abs(v)
+    diag3 = sparse.COO.from_numpy(dg)
+    return {"x": x, "y": y, "z": z, "d": d, "xa": sparse.COO(x), "za": sparse.COO(z), "full": full, "gfull": gfull,
+            "perm": perm, "permc": permc, "diag3": diag3, "gperm": sparse.GCXS.from_numpy(pm.copy())}
 
 
 def _inplace(d):
@@ -444,6 +472,21 @@ MIXED_OPS = {
     "full_T": lambda o: o["full"].T,
     "gfull_dense": lambda o: o["gfull"].todense(),
     "gfull_sum": lambda o: o["gfull"].sum(axis=1),
+    # reductions over trailing axes of permutation-/diagonal-like operands (singleton groups + fill correction)
+    "perm_max_last": lambda o: o["perm"].max(axis=-1),
+    "perm_min_last": lambda o: o["perm"].min(axis=-1),
+    "perm_any_last": lambda o: o["perm"].any(axis=-1),
+    "perm_all_last": lambda o: o["perm"].all(axis=-1),
+    "perm_prod_last": lambda o: o["perm"].prod(axis=-1),
+    "perm_dense": lambda o: o["perm"].todense(),
+    "permc_max_last": lambda o: o["permc"].max(axis=-1),
+    "permc_min_last": lambda o: o["permc"].min(axis=-1),
+    "permc_sum0": lambda o: o["permc"].sum(axis=0),
+    "diag3_max_trailing": lambda o: o["diag3"].max(axis=(1, 2)),
+    "diag3_min_last": lambda o: o["diag3"].min(axis=-1),
+    "diag3_dense": lambda o: o["diag3"].todense(),
+    "gperm_max_last": lambda o: o["gperm"].max(axis=-1),
+    "gperm_min_first": lambda o: o["gperm"].min(axis=0),
     # the same through a second array object sharing the cache (COO(x))
     "alias_transpose": lambda o: o["xa"].transpose((2, 0, 1)),
     "alias_reshape": lambda o: o["xa"].reshape((12, 5)),
@@ -611,6 +654,12 @@ def scenarios(tier, rng):
         dict(name="dense_write_full_gcxs", setup=[], threads=[[D(6, "todense")], [P(6, "dense"), D(6, "todense")]]),
         dict(name="maybe_densify_write_vs_cache", setup=[], threads=[[D(5, "maybe"), T(5, (1, 0))], [T(5, (1, 0)), P(5, "dense")]]),
         dict(name="sparse_result_write", setup=[], threads=[[W(5), P(5, "dense")], [P(5, "neg"), W(0)]]),
+        # --- library-internal in-place writes (the fill correction of reduce) must hit private buffers: reductions over
+        #     trailing axes of permutation-/diagonal-like shared operands (all groups singletons), others read meanwhile
+        dict(name="reduce_trailing_perm", setup=[], threads=[[P(7, "max_last"), P(7, "dense")], [P(7, "min_last"), P(7, "neg")]]),
+        dict(name="reduce_trailing_perm_any_all_prod", setup=[],
+             threads=[[P(7, "any_last"), P(7, "prod_last")], [P(7, "all_last"), P(7, "sum_last"), P(7, "dense")]]),
+        dict(name="reduce_trailing_diag3", setup=[], threads=[[P(8, "max_trailing2"), P(8, "dense")], [P(8, "min_last"), P(8, "max_last")]]),
         # --- attribute memo
         dict(name="A_csr_vs_csc", setup=[], threads=[[A(1, "csr")], [A(1, "csc")]]),
         dict(name="A_csc_vs_csc", setup=[], threads=[[A(1, "csc")], [A(1, "csc")]]),
@@ -650,6 +699,8 @@ def scenarios(tier, rng):
     pool = ([T(0, ax) for ax in AXES3] + [R(0, sh) for sh in SHAPES3[:4]] + [T(1, (1, 0))] +
             [R(1, sh) for sh in SHAPES2[:2]] + [A(1, "csr"), A(1, "csc")] +
             [M("int64",), M("int8", "int64")] + [P(0, "abs"), P(1, "neg"), T(0, (0, 1, 2))] +
+            [P(7, "max_last"), P(7, "min_last"), P(7, "any_last"), P(7, "all_last"), P(7, "prod_last"), P(7, "dense"),
+             P(8, "max_trailing2"), P(8, "min_trailing2"), P(8, "max_last"), P(8, "dense")] +
             [D(5, "todense"), D(6, "todense"), D(5, "maybe"), D(0, "todense"), W(5), W(1), P(5, "dense"), P(6, "dense"),
              P(6, "neg"), T(5, (1, 0))] +
             [T(3, ax) for ax in AXES3[:3]] + [R(3, SHAPES3[0]), T(2, (1, 0)), A(2, "csc"), T(4, AXES3[0]), R(4, SHAPES3[1])])
@@ -662,7 +713,7 @@ def scenarios(tier, rng):
 
 
 # ------------------------------------------------------------------ Coq literals
-NDIMS = {0: 3, 1: 2, 2: 2, 3: 3, 4: 3, 5: 2, 6: 2}
+NDIMS = {0: 3, 1: 2, 2: 2, 3: 3, 4: 3, 5: 2, 6: 2, 7: 2, 8: 3}
 
 
 def case_literal(scn, table, execu, alias=None):
